@@ -69,6 +69,8 @@ def work(tier, seed):
             items.append({"blocks": [list(x) for x in bl], "grid": kind})
     for n in (ot.LADDER_QUICK if tier == "quick" else ot.LADDER_THOROUGH):
         items.append({"ladder": n})
+    for bl in ot.order_types(2, 2) if tier == "quick" else ot.order_types(3, 3):
+        items.append({"bigint": [list(x) for x in bl]})
     return items
 
 
@@ -88,6 +90,8 @@ def run(item, ctx, tier, seed):
     b = bounds(tier)
     if "ladder" in item:
         return _run_ladder(item, ctx, seed)
+    if "bigint" in item:
+        return _run_bigint(item, ctx)
     blocks = [tuple(x) for x in item["blocks"]]
     pos, neg, vals = ot.concretise(blocks, item["grid"], seed)
     T = ot.threshold_alphabet(vals)
@@ -354,6 +358,28 @@ def _run_ladder(item, ctx, seed):
                                 ctx.fail("rate-equals-ratio-of-counts", dict(case, threshold=t, rate=r), observed=rv[k],
                                          expected=None if want is None else float(want))
                                 break
+        # a long, unsorted threshold array (argument sizes are part of the ladder, too)
+        if not tie_free:
+            base_T = [t for t in T if t == t]
+            L = 3 * n + 7 if n >= 1000 else 257
+            longT = [base_T[(i * 7919 + 13) % len(base_T)] for i in range(L)]
+            la = np.array(longT).reshape(-1)
+            for cfg in ot.CFGS[::3]:
+                sL = Scores(np.array(pos), np.array(neg), nb_easy_pos=2, nb_easy_neg=1, score_class=cfg[0], equal_class=cfg[1])
+                case = {"ladder_n": n, "cfg": cfg, "thresholds": f"{L} unsorted thresholds", "easy": [2, 1]}
+                for shape in ((L,), (L // 1, 1) if L % 1 == 0 else (L,)):
+                    ok, mL = guarded(ctx, "cm-long-array", case, lambda: sL.cm(la.reshape(shape)).matrix.reshape(L, 2, 2).tolist())
+                    ctx.tick(L)
+                    ctx.state()
+                    if not ok:
+                        continue
+                    cache = {}
+                    for k, t in enumerate(longT):
+                        if t not in cache:
+                            cache[t] = refs.ref_cm_sorted(spos, sneg, t, cfg[0], cfg[1], 2, 1)
+                        if mL[k] != cache[t]:
+                            ctx.fail("cm-equals-counting", dict(case, index=k, threshold=t, shape=list(shape)), observed=mL[k], expected=cache[t])
+                            break
         if n <= 1100:
             labels = [1] * len(pos) + [0] * len(neg)
             ss = pos + neg
@@ -368,4 +394,54 @@ def _run_ladder(item, ctx, seed):
                                      expected=refs.ref_cm_sorted(spos, sneg, t, cfg[0], cfg[1]))
                             break
     ctx.sample({"ladder_n": n, "thresholds": len(T)})
+    return None
+
+
+def _run_bigint(item, ctx):
+    """Integer scores beyond 2**53 (ids, nanosecond time stamps) with integer thresholds: exact integer comparisons."""
+    from score_analysis import Scores
+    from score_analysis.scores import pointwise_cm
+
+    blocks = [tuple(x) for x in item["bigint"]]
+    for base in (2 ** 53, -(2 ** 62), 2 ** 63 - 64):
+        vals = [base + 1 + 2 * i for i in range(len(blocks))]  # odd offsets: not representable in float64
+        pos, neg = [], []
+        for v, (a, c) in zip(vals, blocks):
+            pos += [v] * a
+            neg += [v] * c
+        T = sorted(set([v + d for v in vals for d in (-1, 0, 1)] + [base - 5, base + 40]))
+        for cfg in ot.CFGS:
+            case = {"blocks": item["bigint"], "pos": pos, "neg": neg, "cfg": cfg, "thresholds": "integer thresholds next to each score"}
+            ctx.state()
+            ok, s = guarded(ctx, "construct", case, Scores, np.array(pos[::-1], dtype=np.int64), np.array(neg[::-1], dtype=np.int64),
+                            nb_easy_pos=1, nb_easy_neg=2, score_class=cfg[0], equal_class=cfg[1])
+            if not ok:
+                continue
+            for targ, how in ((np.array(T, dtype=np.int64), "int64 array"), (list(T), "list of Python ints")):
+                ok, m = guarded(ctx, "cm-bigint", dict(case, threshold_form=how), lambda: s.cm(targ).matrix.tolist())
+                if not ok:
+                    continue
+                for k, t in enumerate(T):
+                    ctx.tick()
+                    ctx.nontrivial()
+                    exp = refs.ref_cm(pos, neg, t, cfg[0], cfg[1], 1, 2)
+                    if m[k] != exp:
+                        ctx.fail("cm-equals-counting", dict(case, threshold=t, threshold_form=how), observed=m[k], expected=exp)
+                        break
+            for t in T[::3]:
+                ok, ms = guarded(ctx, "cm-bigint-scalar", dict(case, threshold=t), lambda: s.cm(t).matrix.tolist())
+                ctx.tick()
+                if ok and ms != refs.ref_cm(pos, neg, t, cfg[0], cfg[1], 1, 2):
+                    ctx.fail("cm-equals-counting", dict(case, threshold=t, threshold_form="Python int"), observed=ms,
+                             expected=refs.ref_cm(pos, neg, t, cfg[0], cfg[1], 1, 2))
+            labels = [1] * len(pos) + [0] * len(neg)
+            ok, pw = guarded(ctx, "pointwise-bigint", case, lambda: pointwise_cm(labels, np.array(pos + neg, dtype=np.int64), np.array(T, dtype=np.int64),
+                                                                               score_class=cfg[0], equal_class=cfg[1]).sum(axis=0).tolist())
+            ctx.tick()
+            if ok:
+                for k, t in enumerate(T):
+                    if pw[k] != refs.ref_cm(pos, neg, t, cfg[0], cfg[1]):
+                        ctx.fail("pointwise-sum-equals-counting", dict(case, threshold=t), observed=pw[k], expected=refs.ref_cm(pos, neg, t, cfg[0], cfg[1]))
+                        break
+    ctx.sample({"bigint": item["bigint"], "bases": ["2**53", "-2**62", "2**63-64"]})
     return None
